@@ -42,7 +42,9 @@ def jobs(tier):
         for mut in MUT:
             out.append(("create-%s-create.%s" % (mut, which), "job_cc", dict(which1=which, which2=which, mut=mut, P1=16384, P2=16384)))
         out.append(("create-none-create.%s.P-changes" % which, "job_cc", dict(which1=which, which2=which, mut="none", P1=16384, P2=32768)))
-    out.append(("create.2c-then-2c.P-changes.3pieces", "job_cc", dict(which1="2c", which2="2c", mut="none", P1=16384, P2=32768, K=5)))
+    for which in ("2c", "2a", "3a") + (() if q else ("3c",)):
+        out.append(("create.%s-then-%s.P-changes.3pieces" % (which, which), "job_cc", dict(which1=which, which2=which, mut="none", P1=16384, P2=32768, K=5)))
+    out.append(("create.1-then-1.plain-then-aligned", "job_cc", dict(which1="1", which2="1", mut="none", P1=16384, P2=16384, align2=True)))
     out.append(("create.1-then-3a.add", "job_cc", dict(which1="1", which2="3a", mut="add", P1=16384, P2=16384)))
     out.append(("create.3a-then-1.grow", "job_cc", dict(which1="3a", which2="1", mut="grow", P1=32768, P2=16384)))
     for version in (1, 2):
@@ -102,9 +104,9 @@ def strip(meta):
     return {k: v for k, v in meta.items() if k != "creation date"}
 
 
-def do_create(E, w, which, P, tag):
+def do_create(E, w, which, P, tag, **kw):
     try:
-        t = cr.create(w, which, path="/data/name", piece_length=P, progress=0)
+        t = cr.create(w, which, path="/data/name", piece_length=P, progress=0, **kw)
         return strip(t.meta)
     except Unsupported:
         raise
@@ -118,15 +120,16 @@ def same(a, b):
     return ben_equal(a, b, ordered=False)
 
 
-def job_cc(E, which1, which2, mut, P1, P2, K=2, _mutants=None):
+def job_cc(E, which1, which2, mut, P1, P2, K=2, align2=False, _mutants=None):
     fs, sizes = base_fs(E, max(P1, P2) if K == 2 else P2, K)
     w = World(fs, mutants=_mutants)
     r1 = do_create(E, w, which1, P1, "1")
     sizes2 = mutate(E, fs, sizes, mut, P2)
     if mut != "delete" or True:
         E.assume(disj(*[s > 0 for s in sizes2.values()]))
-    got = do_create(E, w, which2, P2, "2")
-    fresh = do_create(E, World(fs.clone(), mutants=_mutants), which2, P2, "fresh")
+    kw2 = {"align": True} if align2 else {}
+    got = do_create(E, w, which2, P2, "2", **kw2)
+    fresh = do_create(E, World(fs.clone(), mutants=_mutants), which2, P2, "fresh", **kw2)
     E.check(same(got, fresh), "C09.create-after-create",
             "second create in the same process differs from a fresh process (%s, change=%s): %s vs %s" % (which2, mut, _brief(got), _brief(fresh)))
     if P1 != P2:
@@ -339,9 +342,9 @@ def replay(params, model, notes, workdir, seed):
     mods = cr.real_torrentfile()
     T = mods["torrentfile.torrent"]
 
-    def mk(which, P, outfile=None):
+    def mk(which, P, outfile=None, **extra):
         cls, mv = cr.CLS[which]
-        kw = dict(path=root, piece_length=P, progress=0)
+        kw = dict(path=root, piece_length=P, progress=0, **extra)
         if mv:
             kw["meta_version"] = mv
         if outfile:
@@ -366,6 +369,7 @@ def replay(params, model, notes, workdir, seed):
         "with contextlib.redirect_stdout(io.StringIO()):\n"
         "    if kind == 'create':\n"
         "        kw = dict(path=root, piece_length=int(P), progress=0)\n"
+        "        if len(sys.argv) > 6 and sys.argv[6] == 'align': kw['align'] = True\n"
         "        cls, mv = which.split(':')\n"
         "        if mv != '-': kw['meta_version'] = mv\n"
         "        m = getattr(T, cls)(**kw).meta; m.pop('creation date', None)\n"
@@ -395,9 +399,9 @@ def replay(params, model, notes, workdir, seed):
             return x
         return json.loads(json.dumps(n(m)))
 
-    def fresh(kind, which, P, mpath="-"):
+    def fresh(kind, which, P, mpath="-", align=False):
         cls, mv = cr.CLS[which] if which in cr.CLS else ("-", None)
-        r = subprocess.run([sys.executable, "-c", fresh_code, kind, "%s:%s" % (cls, mv or "-"), str(P), root, mpath],
+        r = subprocess.run([sys.executable, "-c", fresh_code, kind, "%s:%s" % (cls, mv or "-"), str(P), root, mpath, "align" if align else "-"],
                            capture_output=True, text=True, cwd=workdir)
         try:
             return json.loads(r.stdout)
@@ -417,11 +421,12 @@ def replay(params, model, notes, workdir, seed):
         except Exception:
             pass
         change(params["mut"])
+        extra = {"align": True} if params.get("align2") else {}
         try:
-            got = norm(mk(params["which2"], P2).meta)
+            got = norm(mk(params["which2"], P2, **extra).meta)
         except Exception as ex:  # noqa: BLE001
             got = "EXC " + type(ex).__name__
-        fr = fresh("create", params["which2"], P2)
+        fr = fresh("create", params["which2"], P2, align=bool(extra))
         return [] if got == fr else ["C09.create-after-create"]
     if "mut" not in params:
         # recheck ; truncate a ; recheck (second metafile may use another piece length)
